@@ -71,8 +71,10 @@ func runHostile(w *h.World, env h.EnvSpec, txs []h.TxSpec, desc string, alloc bo
 		}
 		if alloc && endAlloc >= prevAlloc && cap(fs.L.Events) == capAtOpen {
 			a := endAlloc - prevAlloc
-			if lim := uint64(64<<10) + 64*gas + 4*uint64(nextMemLen); a > lim {
-				hr.workFindings = append(hr.workFindings, [3]string{"allocation", opLocus(prev), fmt.Sprintf("instruction %#x at pc %d allocated %d bytes for %d gas with %d bytes of memory (bound 64KiB + 64*gas + 4*mem = %d)", prev.Op, prev.PC, a, gas, nextMemLen, lim)})
+			// memory the instruction itself adds must be covered by its gas (>= 3 gas per 32 bytes); copies of
+			// memory that already existed before it (RETURN, LOG, call arguments) were paid for when it was expanded
+			if lim := uint64(64<<10) + 64*gas + 4*uint64(prev.MemLen); a > lim {
+				hr.workFindings = append(hr.workFindings, [3]string{"allocation", opLocus(prev), fmt.Sprintf("instruction %#x at pc %d allocated %d bytes for %d gas with %d bytes of memory before it (bound 64KiB + 64*gas + 4*mem = %d)", prev.Op, prev.PC, a, gas, prev.MemLen, lim)})
 			}
 		}
 		prev = nil
@@ -413,7 +415,7 @@ func genHostile(c Case, tier string) []hostileCase {
 			for i := 0; i < depth-1; i++ {
 				codes[i] = c14Forwarder(h.ContractAddr(i + 1))
 			}
-			codes[depth-1] = c14Last(kind, target, 100000, f)
+			codes[depth-1] = c14Last(kind, target, h.Pick(r, []uint64{100000, 100000, 100000, 4999, 256}), f)
 			out = append(out, hostileCase{h.BaseWorld(codes), h.EnvSpec{Fork: f}, []h.TxSpec{{Entry: h.ECall, From: h.Sender, To: h.ContractAddr(0), Input: payload, Gas: 6_000_000}},
 				fmt.Sprintf("%s to 0x%02x from depth %d fork=%s payload=%x", kindName(kind), target[19], depth, f, payload), fmt.Sprintf("call-0x%02x", target[19])})
 		}
@@ -497,7 +499,7 @@ func init() {
 		Level:       "exploration",
 		Hostile:     true,
 		Serial:      false,
-		Rule:        "work counters at the host boundary between two consecutive instruction callbacks (one instruction, or one precompile call): state reads counted by the StateDB proxy must stay within 16 + gas/20 (20 gas = cheapest state read on any fork) and bytes allocated (runtime TotalAlloc delta sampled after the recorder's own copies) within 64 KiB + 64*gas + 4*memory; workloads: C03's hostile generators (journal operand sweeps with storage words encoding string lengths 2^12..2^64-1 and memory length words up to 2^256-1, Artela precompile payloads with length fields up to 2^256-1) plus single-instruction programs for every length-taking standard opcode with operands 2^10..2^64 and the whole standard gadget workload as the no-false-alarm control; the proxy aborts an instruction after 2^16 reads (the violation is then established); distinct_nontrivial = distinct (opcode, outcome, work class) observations",
+		Rule:        "work counters at the host boundary between two consecutive instruction callbacks (one instruction, or one precompile call): state reads counted by the StateDB proxy must stay within 16 + gas/20 (20 gas = cheapest state read on any fork) and bytes allocated (runtime TotalAlloc delta sampled after the recorder's own copies) within 64 KiB + 64*gas + 4*(memory size before the instruction); workloads: C03's hostile generators (journal operand sweeps with storage words encoding string lengths 2^12..2^64-1 and memory length words up to 2^256-1, Artela precompile payloads with length fields up to 2^256-1) plus single-instruction programs for every length-taking standard opcode with operands 2^10..2^64 and the whole standard gadget workload as the no-false-alarm control; the proxy aborts an instruction after 2^16 reads (the violation is then established); distinct_nontrivial = distinct (opcode, outcome, work class) observations",
 		Assumptions: []string{"allocation is sampled in single-goroutine workers; the generous constants keep every standard instruction on every fork far inside the bounds (checked by the control workload)", "hashing/copying work is observed through allocation and state reads only"},
 		Cases: func(seed uint64, tier string) []Case {
 			cs := hostileCases(seed, tier, 0xC20)
@@ -533,6 +535,23 @@ func runC20(c Case, tier string) (res CaseResult) {
 			if isCallOp(e.Op) && len(e.Stack) >= 2 {
 				if a := common.Address(e.Stack[len(e.Stack)-2].Bytes20()); a[19] >= 100 && a[19] <= 102 {
 					res.Count("precompile_calls_measured", 1)
+				}
+			}
+		}
+		// host work done by a precompile whose fixed fee could not be paid
+		var pcGas uint64
+		inPC := false
+		for i := range hr.fs.L.Events {
+			e := &hr.fs.L.Events[i]
+			switch e.K {
+			case h.KEnter:
+				inPC = e.To[19] >= 100 && e.To[19] <= 102 && e.To == common.BytesToAddress([]byte{e.To[19]})
+				pcGas = e.Gas
+			case h.KExit:
+				inPC = false
+			case h.KCtxGet, h.KCtxSet, h.KJITSender:
+				if inPC && hr.fs.Rules.IsBerlin && pcGas < 5000 {
+					res.Fail(Key("work-without-fee", fmt.Sprintf("call-0x%02x", 100+int(e.K-h.KCtxGet))), fmt.Sprintf("a precompile given %d gas (fixed fee 5000) still performed its host operation (%d payload bytes handed to the host)", pcGas, len(e.CtxKey)+len(e.Bytes)), hr.desc)
 				}
 			}
 		}
